@@ -369,24 +369,33 @@ fn run_history(dir: &Path, docs: &[Doc], gc: bool, res: &mut ShardResult) {
             // classify by mechanism; a difference explained by neither mechanism keeps a per-history signature
             let root_modified = docs[k - 1].root_text() != docs[k].root_text();
             let sub_modified = docs[k - 1].sub_text() != docs[k].sub_text();
-            let unmodified = |d: &String| (d.starts_with("lib.sw ") && !root_modified) || (d.starts_with("sub.sw ") && !sub_modified);
-            let class = if only_inc.is_empty() && !only_fresh.is_empty() && only_fresh.iter().all(|d| unmodified(d)) {
-                Some(CLASS_CACHED_MODULE_DIAGNOSTICS_DROPPED)
-            } else if only_fresh.is_empty() && !only_inc.is_empty() && only_inc.iter().all(|d| d.contains(" warning ")) && b.0.iter().any(|d| d.contains(" error ")) {
-                Some(CLASS_EXTRA_WARNINGS_WHILE_ERRORS)
-            } else {
-                None
-            };
-            match class {
-                Some(sig) => {
-                    res.count(&format!("class.{sig}"));
-                    if res.counters.get(&format!("class.{sig}")).copied().unwrap_or(0) <= 3 {
-                        res.violation(sig.to_string(), format!("after edit {k} (gc={gc}): only incremental {only_inc:?} / only fresh {only_fresh:?}"), replay.clone());
+            // the module compiled last in this step is the one whose change was sent last (the
+            // submodule's change is sent before the root's); the other one is served from the cache
+            let last_changed_is_root = root_modified || !sub_modified;
+            let cached = |d: &String| (d.starts_with("lib.sw ") && !last_changed_is_root) || (d.starts_with("sub.sw ") && last_changed_is_root);
+            let a_ok = only_fresh.iter().all(|d| cached(d));
+            let b_ok = only_inc.is_empty() || (only_inc.iter().all(|d| d.contains(" warning ")) && b.0.iter().any(|d| d.contains(" error ")));
+            let mut classes = vec![];
+            if a_ok && b_ok {
+                if !only_fresh.is_empty() {
+                    classes.push(CLASS_CACHED_MODULE_DIAGNOSTICS_DROPPED);
+                }
+                if !only_inc.is_empty() {
+                    classes.push(CLASS_EXTRA_WARNINGS_WHILE_ERRORS);
+                }
+            }
+            match classes.is_empty() {
+                false => {
+                    for sig in classes {
+                        res.count(&format!("class.{sig}"));
+                        if res.counters.get(&format!("class.{sig}")).copied().unwrap_or(0) <= 3 {
+                            res.violation(sig.to_string(), format!("after edit {k} (gc={gc}): only incremental {only_inc:?} / only fresh {only_fresh:?}"), replay.clone());
+                        }
                     }
                     // a listed mechanism: keep exploring the rest of the history
                     continue;
                 }
-                None => {
+                true => {
                     res.violation(
                         format!("incremental-diagnostics-differ:{:016x}", hash64(format!("{:?}", &docs[..=k]).as_bytes())),
                         format!("after edit {k} (gc={gc}) the incremental server publishes diagnostics a fresh server does not: only incremental {only_inc:?} / only fresh {only_fresh:?}"),
